@@ -576,6 +576,24 @@ def g_many_revisions(rnd):
     return files
 
 
+def g_same_typedefs(rnd):
+    """the same typedef (same name, same restriction) defined in several modules and used by a leaf in each: listings
+    of types must put them in one fixed order"""
+    tds = rnd.sample(['typedef percentage { type uint8 { range "0..100"; } }', 'typedef name { type string { length 1..64; } }',
+                      'typedef flag { type boolean; default true; }', 'typedef ratio { type decimal64 { fraction-digits 2; } }'],
+                     rnd.randint(1, 3))
+    files = []
+    for i in range(rnd.randint(2, 4)):
+        body = "\n" * rnd.randint(0, 3)
+        for td in tds:
+            if rnd.random() < 0.85:
+                nm = td.split()[1]
+                body += "  %s\n  leaf %s_%d { type %s; }\n" % (td, nm, i, nm)
+        body += "  leaf plain%d { type string; }\n" % i
+        files.append(mod(rnd.choice(["ty%d", "aa%d", "zz%d"]) % i, body))
+    return files
+
+
 def g_random(rnd):
     return files_of_schema(sg.random_schema(rnd, n_modules=rnd.randint(2, 4)))
 
@@ -615,7 +633,8 @@ GENS = [("random", g_random, 8), ("random-faulty", g_random_faulty, 3), ("identi
         ("ident-shared-prefix", g_ident_shared_prefix, 2), ("typedef-cycles", g_typedef_cycles, 2), ("rev-norev", g_rev_norev, 2),
         ("posix-patterns", g_posix_patterns, 2), ("identity-rings", g_identity_rings, 2), ("superseded", g_superseded, 2),
         ("deferred-augments", g_deferred_augments, 2), ("submodule-clash", g_submodule_clash, 2),
-        ("case-siblings", g_case_siblings, 2), ("late-errors", g_late_errors, 2), ("many-revisions", g_many_revisions, 2)]
+        ("case-siblings", g_case_siblings, 2), ("late-errors", g_late_errors, 2), ("many-revisions", g_many_revisions, 2),
+        ("same-typedefs", g_same_typedefs, 1)]
 # families whose defects only show as a difference between runs with the SAME input: more repeats
 REPEATS = {"ident-shared-prefix": 6, "typedef-cycles": 6, "rev-norev": 5, "identities": 5, "posix-patterns": 6, "typedefs": 5,
            "identity-rings": 6, "deferred-augments": 8, "submodule-clash": 8,
@@ -626,7 +645,8 @@ INCREMENTAL = {"superseded": 6, "rev-norev": 3, "two-revisions": 3}
 CORPUS = [("ident-shared-prefix", g_ident_shared_prefix, 6), ("typedef-cycles", g_typedef_cycles, 6), ("rev-norev", g_rev_norev, 4),
           ("posix-patterns", g_posix_patterns, 6), ("identity-rings", g_identity_rings, 6), ("superseded", g_superseded, 4),
           ("deferred-augments", g_deferred_augments, 8), ("submodule-clash", g_submodule_clash, 8),
-          ("case-siblings", g_case_siblings, 6), ("late-errors", g_late_errors, 8), ("many-revisions", g_many_revisions, 6)]
+          ("case-siblings", g_case_siblings, 6), ("late-errors", g_late_errors, 8), ("many-revisions", g_many_revisions, 6),
+          ("same-typedefs", g_same_typedefs, 8)]
 
 
 def go_line(files, opts="-", order=None):
@@ -901,8 +921,14 @@ def build_cli():
     return rc == 0, out
 
 
-def cli_run(tmp, fmt, names):
-    p = subprocess.run([GOYANG, "--format", fmt] + names, cwd=tmp, stdout=subprocess.PIPE, stderr=subprocess.PIPE, timeout=60)
+CLI_FORMATS = ("tree", "types", "types --types_verbose", "types --types_debug")
+
+
+def cli_run(tmp, fmt, names, flags=()):
+    """fmt: a format name, optionally followed by that format's own options"""
+    f = fmt.split()
+    p = subprocess.run([GOYANG] + list(flags) + ["--format", f[0]] + f[1:] + names, cwd=tmp, stdout=subprocess.PIPE,
+                       stderr=subprocess.PIPE, timeout=60)
     return dict(rc=p.returncode, stdout=p.stdout.decode("utf8", "replace"), stderr=p.stderr.decode("utf8", "replace"))
 
 
@@ -914,20 +940,23 @@ def cli_view(out, permuted):
     return dict(out, stderr=sorted(out["stderr"].split("\n")))
 
 
-def cli_case(files, rnd, k, max_perms, formats=("tree", "types")):
-    """returns (invocations, stdout seen, None or (fmt, order_a, order_b, out_a, out_b))"""
+def cli_case(files, rnd, k, max_perms, formats=CLI_FORMATS, args=None, flags=()):
+    """files: (relative path, text) written below a fresh directory; args: indices of the files named on the command
+    line (default all), permuted; flags: options before --format.
+    returns (invocations, stdout seen, None or (fmt, order_a, order_b, out_a, out_b))"""
     tmp = tempfile.mkdtemp(prefix="c05cli-")
     try:
         for n, t in files:
+            os.makedirs(os.path.dirname(os.path.join(tmp, n)), exist_ok=True)
             with open(os.path.join(tmp, n), "w") as f:
                 f.write(t)
-        idx = list(range(len(files)))
-        orders = [idx] * k + orders_for(len(files), rnd, max_perms)
+        idx = list(range(len(files))) if args is None else list(args)
+        orders = [idx] * k + [[idx[i] for i in p] for p in orders_for(len(idx), rnd, max_perms)]
         n, printed = 0, False
         for fmt in formats:
             ref = None
             for o in orders:
-                out = cli_run(tmp, fmt, [files[i][0] for i in o])
+                out = cli_run(tmp, fmt, [files[i][0] for i in o], flags)
                 n += 1
                 printed = printed or bool(out["stdout"].strip())
                 if ref is None:
@@ -937,6 +966,77 @@ def cli_case(files, rnd, k, max_perms, formats=("tree", "types")):
         return n, printed, None
     finally:
         shutil.rmtree(tmp, ignore_errors=True)
+
+
+# ---------------------------------------------------------------------------- directory layouts (files found on disk)
+def layout_path_scan(rnd):
+    """a search path made by scanning a directory tree (goyang -p ROOT), in which several directories hold a file for the
+    same module name; the module is loaded on demand by an import"""
+    dirs = rnd.sample(["vendor-a", "vendor-b", "vendor-c", "x/deep", "common", "zz"], rnd.randint(2, 4))
+    files = []
+    for i, d in enumerate(dirs):
+        files.append(("lib/%s/common.yang" % d, mod("common", "  typedef t { type %s; }\n  leaf from_%d { type string; }\n" %
+                                                   (["string", "int8", "boolean", "uint32"][i % 4], i))[1]))
+        if rnd.random() < 0.4:
+            files.append(("lib/%s/only%d.yang" % (d, i), mod("only%d" % i, "  leaf o { type string; }\n")[1]))
+    main = mod("main", "  leaf x { type c:t; }\n", imports=[("c", "common")])[1]
+    files.append(("top/main.yang", main))
+    return dict(files=files, args=[len(files) - 1], flags=["-p", "lib"])
+
+
+def layout_rejected(rnd):
+    """files read by path; one of them is rejected; the good ones import modules that are only on disk in the same
+    directory (found because reading a file puts its directory on the search path)"""
+    d = rnd.choice(["dir", "a/b"])
+    files = [("%s/helper.yang" % d, mod("helper", "  typedef t { type string; }\n")[1])]
+    args = []
+    for i in range(rnd.randint(1, 2)):
+        files.append(("%s/good%d.yang" % (d, i), mod("good%d" % i, "  leaf g { type h:t; }\n", imports=[("h", "helper")])[1]))
+        args.append(len(files) - 1)
+    for i in range(rnd.randint(1, 2)):
+        bad = rnd.choice(["module broken%d { namespace \"urn:b\"; prefix b; leaf x { type string; }\n" % i,      # no closing brace
+                          "module broken%d { namespace \"urn:b\"; prefix b; bogus-statement 1; }\n" % i,
+                          "module broken%d { prefix b; leaf x { type string; } leaf { } }\n" % i,
+                          "container broken%d { }\n" % i])
+        files.append(("%s/broken%d.yang" % (d, i), bad))
+        args.append(len(files) - 1)
+    if rnd.random() < 0.5:
+        files.append(("other/fine.yang", mod("fine", "  leaf f { type string; }\n")[1]))
+        args.append(len(files) - 1)
+    rnd.shuffle(args)
+    return dict(files=files, args=args, flags=[])
+
+
+LAYOUTS = [("path-scan", layout_path_scan), ("rejected-file", layout_rejected)]
+
+
+def cli_layouts(res, rnd, n_each, k, max_perms, stats):
+    reported = {}
+    for name, g in LAYOUTS:
+        r2 = random.Random("layout-" + name)
+        for i in range(n_each):
+            lay = g(r2 if i < n_each // 2 else rnd)
+            stats["layout_cases"] = stats.get("layout_cases", 0) + 1
+            n, printed, bad = cli_case(lay["files"], rnd, k, max_perms, formats=("tree", "types"), args=lay["args"], flags=lay["flags"])
+            stats["invocations"] += n
+            stats["with_output"] += 1 if printed else 0
+            if bad is None:
+                continue
+            stats["differing_cases"] += 1
+            fmt, oa, ob, a, b = bad
+            key = (name, fmt, oa == ob)
+            stats["signatures"][str(key)] = stats["signatures"].get(str(key), 0) + 1
+            if key in reported or len(reported) >= 3:
+                continue
+            reported[key] = 1
+            which = "stdout" if a["stdout"] != b["stdout"] else ("stderr" if a["stderr"] != b["stderr"] else "exit status")
+            res.violation("goyang %s --format %s: %s differs between %s; files on disk %s [layout %s]" %
+                          (" ".join(lay["flags"]), fmt, which,
+                           "two runs with the SAME arguments" if oa == ob else "argument orders %s and %s" %
+                           ([lay["files"][i][0] for i in oa], [lay["files"][i][0] for i in ob]),
+                           [f for f, _ in lay["files"]], name),
+                          dict(kind="cli", gen="layout-" + name, files=lay["files"], format=fmt, flags=lay["flags"], order_a=oa, order_b=ob,
+                               out_a=a, out_b=b))
 
 
 def cli_part(res, cases, rnd, k, max_perms):
@@ -967,6 +1067,7 @@ def cli_part(res, cases, rnd, k, max_perms):
                       (fmt, which, "two runs with the SAME arguments" if oa == ob else "argument orders %s and %s" % (oa, ob),
                        [n_ for n_, _ in files], gen),
                       dict(kind="cli", gen=gen, files=files, format=fmt, order_a=oa, order_b=ob, out_a=a, out_b=b))
+    cli_layouts(res, rnd, 10 if k <= 3 else 60, k + 3, max_perms, stats)
     return stats
 
 
@@ -993,7 +1094,7 @@ def run(res, tier, seed, proof):
     k, max_perms = (3, 8) if quick else (5, 23)
     mm = metamorphic(res, cases, rnd, k, max_perms)
     pr = probe_part(res, cases[:220] if quick else cases[:4000], rnd, 3, 2)
-    cli_cases = cases[:102] if quick else cases[:1500]
+    cli_cases = cases[:110] if quick else cases[:1500]
     cli = cli_part(res, cli_cases, rnd, 3 if quick else 4, 4 if quick else 8)
     cov = dict(
         evaluations=es_evals + mm["runs"] + pr["runs"] + cli["invocations"],
@@ -1011,7 +1112,10 @@ def run(res, tier, seed, proof):
              "modules whose augments wait for a node grafted by a later-sorting module and go into that same node, one top-level "
              "name defined in two submodules of a module; the last eight also as a fixed corpus); every case additionally with a Process between two loads (final outcome = batch): each processed k times in one order and in all (<= 4 files, capped) or sampled load orders; all "
              "dumps byte-identical (ids included; id-only differences counted), error list ordered and duplicate-free.  (3) the "
-             "goyang command with --format tree/types on a prefix of the same sets, repeated and with permuted arguments.  (2b) the "
+             "goyang command with --format tree / types / types --types_verbose / types --types_debug on a prefix of the same sets, "
+             "repeated and with permuted arguments; and on directory layouts: a search path scanned with -p over directories holding "
+             "the same module name (import loaded on demand), files read by path next to a rejected file whose directory holds the "
+             "imports.  (2b) the "
              "c05probe command on the same sets: Entry.Print twice, FindModuleByNamespace twice per namespace, GetModule twice and "
              "after flipping IgnoreDeviateNotSupported against fresh sets; compared inside one run, across repeats and load orders.  "
              "non-trivial = more than one file / distinct set of error texts",
@@ -1054,10 +1158,11 @@ def replay(rep, res):
         tmp = tempfile.mkdtemp(prefix="c05cli-")
         try:
             for n, t in files:
+                os.makedirs(os.path.dirname(os.path.join(tmp, n)), exist_ok=True)
                 open(os.path.join(tmp, n), "w").write(t)
             outs = {}
             for o in [rep["order_a"], rep["order_b"]] * 10:
-                r = cli_run(tmp, rep["format"], [files[i][0] for i in o])
+                r = cli_run(tmp, rep["format"], [files[i][0] for i in o], rep.get("flags", ()))
                 outs.setdefault(json.dumps(r, sort_keys=True), o)
         finally:
             shutil.rmtree(tmp, ignore_errors=True)
